@@ -169,6 +169,7 @@ static bool is_registry_lock(const void* l)
   return true;
 }
 
+static bool g_extended = false;
 static thread_local bool g_quiet = false; // inside an extra observation: not a scheduling point
 static void sync(Pending p)
 {
@@ -187,24 +188,32 @@ void HLock::lock()
 {
   if (is_registry_lock(this)) {
     sync({ "acq_unique", "", "", "", this });
+  } else if (g_extended) {
+    sync({ "ilock", "", "", "", this }); // a per-instance lock: a point where another thread may run
   }
 }
 void HLock::unlock()
 {
   if (is_registry_lock(this)) {
     sync({ "rel_unique", "", "", "", this });
+  } else if (g_extended) {
+    sync({ "ilock", "", "", "", this }); // a per-instance lock: a point where another thread may run
   }
 }
 void HLock::lock_shared()
 {
   if (is_registry_lock(this)) {
     sync({ "acq_shared", "", "", "", this });
+  } else if (g_extended) {
+    sync({ "ilock", "", "", "", this }); // a per-instance lock: a point where another thread may run
   }
 }
 void HLock::unlock_shared()
 {
   if (is_registry_lock(this)) {
     sync({ "rel_shared", "", "", "", this });
+  } else if (g_extended) {
+    sync({ "ilock", "", "", "", this }); // a per-instance lock: a point where another thread may run
   }
 }
 }
@@ -256,9 +265,9 @@ extern "C" {
 int yield_fn(int (*cb)(int), int x);
 int yield_fn2(int (*cb)(int), int x); // a second name of the same library (result marked with +500)
 }
-// free-running (random) schedules run a longer program: each thread invokes BOTH names within
-// one incarnation of its sandbox, in an order that depends on the thread
-static bool g_extended = false;
+// (g_extended: free-running (random) schedules run a longer program - each thread invokes BOTH names
+// within one incarnation of its sandbox, in an order that depends on the thread - and may also be
+// switched at the operations of per-instance locks)
 #if defined(BK_NOOP)
 // statically linked "guest": yields to the scheduler, then calls the callback it was given
 extern "C" int yield_fn(int (*cb)(int), int x)
